@@ -146,6 +146,28 @@ func checkGraph(roots []*exec.Task, result bigslice.Slice) string {
 		}
 		names[n] = true
 	}
+	// a combine key names one machine-level combine buffer: the tasks that carry it must all belong
+	// to one stage (one op name), and every consumer that reads a combined stage must name the key its
+	// producers write to
+	keyOp := map[string]string{}
+	for _, t := range tasks {
+		if t.CombineKey == "" {
+			continue
+		}
+		if op, ok := keyOp[t.CombineKey]; ok && op != t.Name.Op {
+			return fmt.Sprintf("combine-key-shared: combine key %s is carried by tasks of two stages, %s and %s", t.CombineKey, op, t.Name.Op)
+		}
+		keyOp[t.CombineKey] = t.Name.Op
+	}
+	for _, t := range tasks {
+		for _, d := range t.Deps {
+			for i := 0; i < d.NumTask(); i++ {
+				if p := d.Task(i); p.CombineKey != d.CombineKey {
+					return fmt.Sprintf("combine-key-wiring: %s reads combine key %q from producer %s, which writes to %q", t.Name, d.CombineKey, p.Name, p.CombineKey)
+				}
+			}
+		}
+	}
 	if len(roots) != result.NumShard() {
 		return fmt.Sprintf("root-count: %d root tasks for a result of %d shards", len(roots), result.NumShard())
 	}
